@@ -8,6 +8,7 @@ import (
 	"context"
 	"encoding/hex"
 	"fmt"
+	"math/rand"
 	"sort"
 	"strings"
 
@@ -207,7 +208,7 @@ func cloneList(l [][]byte) [][]byte {
 }
 
 func (e *engine) runC30() {
-	e.rep.Rule = "protocol hashes: (pid, ctx) pairs incl. every boundary-shifted split of the same concatenation, empty ctx, long pids (length ≥128: 2-byte uvarint) vs BLAKE3 of the model preimage; pairwise inequality monitor; entry filter and resolveMatch over a 3-value universe per constraint (peer: none/right/wrong, transport: 0/right/wrong); distinct = distinct op line"
+	e.rep.Rule = "protocol hashes: (pid, ctx) pairs incl. every boundary-shifted split of the same concatenation, empty ctx, long pids (length ≥128: 2-byte uvarint) vs BLAKE3 of the model preimage; splits of one long string whose protocol-ID lengths differ by m·2^14 and m·2^16 (thorough: 2^21, 2^24, 2^28) — where 2-byte-uvarint / 16-bit / 3-byte-uvarint / 24-bit / 4-byte-uvarint length fields wrap — hashed by streaming BLAKE3 over the model's prefix ‖ pid ‖ ctx; pairwise inequality monitor; entry filter and resolveMatch over a 3-value universe per constraint (peer: none/right/wrong, transport: 0/right/wrong); distinct = distinct op line"
 	e.rep.Require("proto", "admits.1", "admits.0", "resolve")
 	sid := link_solicit.ComputeSessionID(peer.ID("a"), peer.ID("b"))
 	type pc struct{ pid, ctx []byte }
@@ -233,6 +234,14 @@ func (e *engine) runC30() {
 		pcs = append(pcs, pc{e.rng.Bytes(1 + e.rng.Intn(5)), e.rng.Bytes(e.rng.Intn(5))})
 	}
 	hashes := map[string]pc{}
+	e.longSplits(sid, func(h []byte, x pc2) (string, string) {
+		o, ok := hashes[string(h)]
+		hashes[string(h)] = pc{x.pid, x.ctx}
+		if ok && (!bytes.Equal(o.pid, x.pid) || !bytes.Equal(o.ctx, x.ctx)) {
+			return fmt.Sprintf("solicitations (%s,%s) and (%s,%s) have the same protocol hash", short(o.pid), short(o.ctx), short(x.pid), short(x.ctx)), "solicit.proto:boundary-collision"
+		}
+		return "", "solicit.proto"
+	})
 	for _, x := range pcs {
 		op := fmt.Sprintf("solicit.protoPre sid=%s pid=%s ctx=%s", lib.Hex(sid), lib.Hex(x.pid), lib.Hex(x.ctx))
 		model := e.m.Query(op)
@@ -329,6 +338,77 @@ func (e *engine) runC30() {
 	tr := link_solicit_controller.VerifComputeHashes(2, sid, ents)
 	if len(tr) != 2 || !bytes.Equal(tr[0], all[0]) || !bytes.Equal(tr[1], all[1]) {
 		e.rep.Disagree(lib.Disagreement{Op: "computeHashes maxHashes=2", Monitor: "unconfirmed", What: "computeHashes truncation differs from sorted prefix", Key: "solicit.truncate"})
+	}
+}
+
+type pc2 struct{ pid, ctx []byte }
+
+// short renders a byte string for a finding: long ones by length and ends only.
+func short(b []byte) string {
+	if len(b) <= 48 {
+		return fmt.Sprintf("%q", b)
+	}
+	return fmt.Sprintf("[%d bytes %x…%x]", len(b), b[:4], b[len(b)-4:])
+}
+
+// longSplits: boundary-ambiguous (pid, ctx) splits of ONE byte string whose protocol-ID lengths
+// differ by a multiple of 2^14 / 2^16 (quick) and 2^21 / 2^24 / 2^28 (thorough) — the points where
+// a 2-byte uvarint, a 16-bit, a 3-byte uvarint, a 24-bit and a 4-byte uvarint length field wrap:
+// with such a length encoding (P[:k], P[k:]‖C) and (P[:k+m·W], P[k+m·W:]‖C) get the same preimage.
+// (Props.C30.boundary_shift_distinct: the model's preimages differ for every shift.) The model
+// answers with the preimage's prefix sid ‖ uvarint(len pid) (solicit.protoPrefix); BLAKE3 is
+// streamed over prefix ‖ pid ‖ ctx by zeebo/blake3 directly and compared with ComputeProtocolHash.
+// dup is the pairwise-inequality monitor shared with the short splits.
+func (e *engine) longSplits(sid []byte, dup func(h []byte, x pc2) (string, string)) {
+	type class struct {
+		name     string
+		w        int
+		mult     int // splits at k + m·w for m = 0..mult
+		thorough bool
+		ks       []int
+	}
+	classes := []class{
+		{"long14", 1 << 14, 3, false, []int{1, 5, 127, 128, 129, 300}},
+		{"long16", 1 << 16, 3, false, []int{1, 5, 127, 128, 129, 300}},
+		{"long21", 1 << 21, 2, true, []int{1, 5, 129}},
+		{"long24", 1 << 24, 1, true, []int{5, 129}},
+		{"long28", 1 << 28, 1, true, []int{5}},
+	}
+	for _, c := range classes {
+		if c.thorough && e.a.Scale == 1 {
+			continue
+		}
+		e.rep.Require("proto." + c.name)
+		total := c.mult*c.w + 700
+		buf := make([]byte, total)
+		rand.New(rand.NewSource(e.rng.Int63())).Read(buf)
+		var cuts []int
+		for _, k := range c.ks {
+			for m := 0; m <= c.mult; m++ {
+				cuts = append(cuts, k+m*c.w)
+			}
+		}
+		if c.w <= 1<<21 {
+			// around the wrap point itself
+			cuts = append(cuts, c.w-1, c.w, c.w+1, 2*c.w-1, 2*c.w)
+		}
+		for _, k := range cuts {
+			if k <= 0 || k >= total {
+				continue
+			}
+			pid, ctx := buf[:k], buf[k:]
+			op := fmt.Sprintf("solicit.protoPrefix sid=%s n=%d", lib.Hex(sid), len(pid))
+			model := e.m.Query(op)
+			h := blake3.New()
+			h.Write(lib.Unhex(strings.TrimPrefix(model, "ok ")))
+			h.Write(pid)
+			h.Write(ctx)
+			want := "ok " + lib.Hex(h.Sum(nil)[:32])
+			got := link_solicit.ComputeProtocolHash(sid, protocol.ID(pid), ctx)
+			mon, key := dup(got, pc2{pid, ctx})
+			e.rep.Compare(fmt.Sprintf("%s # %s: split of one %d-byte string (PRNG bytes) at %d: |pid|=%d |ctx|=%d", op, c.name, total, k, len(pid), len(ctx)),
+				want, "ok "+lib.Hex(got), "proto."+c.name, key, mon)
+		}
 	}
 }
 
